@@ -15,7 +15,9 @@ RULE = ("cases = (chart, history) from the C01 generator, half of them with inje
         "inside a state/transition/completion bracket; log output only inside a content bracket; outside a microstep "
         "only event processing, stable-configuration, completion (and invocation) notices; (2) completeness/order "
         "against the reference model (every exited/entered state, taken transition, executed element, processed event "
-        "once, in order; one stable notice per macrostep). non-trivial = run has >= 1 executed element and >= 1 event; "
+        "once, in order; one stable notice per macrostep); (3) timed stream: charts with delayed sends to the own session "
+        "(external queue and #_internal) polled while idle - bracket grammar plus the stream rule 'after a microstep a stable notice "
+        "precedes the MACROSTEPPED / IDLE result of step()'). non-trivial = run has >= 1 executed element and >= 1 event; "
         "distinct = hash(document, history, engine)")
 ASSUMPTIONS = ["protocol as encoded in test-lifecycle.cpp generalised by the property text",
                "initial/history transitions are reported in the entry phase (where Appendix D executes them)"]
@@ -108,6 +110,43 @@ def check_nesting(raw):
         raise NestError(len(raw), "trace ends with open brackets %s" % (stack,))
 
 
+def check_stable_discipline(raw):
+    """stream rule: once a microstep ran, a stable-configuration notice must be issued before step() reports the macrostep as
+    completed (MACROSTEPPED) or the session as IDLE. (The event's type field is not used: an event sent to #_internal carries
+    the type 'external'.)"""
+    dirty = None
+    for i, e in enumerate(raw):
+        k = e[0]
+        if k == 'am':
+            dirty = i
+        elif k == 'stable':
+            dirty = None
+        elif dirty is not None and k == 'st' and e[1] in ('IDLE', 'MACROSTEPPED'):
+            raise NestError(i, "macrostep ended without a stable-configuration notice (microstep at %d, then %s)" % (dirty, e[:2]))
+
+
+def check_timed_case(ctx, ch, engine):
+    """charts with delayed sends to the own session, polled with step(0) while idle: bracket grammar + stable discipline"""
+    xml = ch.to_xml()
+    r = run_engine(ctx, xml, engine, [], "idlewait=90")
+    raw = r["trace"]
+    try:
+        check_nesting(raw)
+        check_stable_discipline(raw)
+    except NestError as ne:
+        i = ne.args[0]
+        raise Failure("nesting", {"engine": engine, "message": ne.args[1], "window": {"index": i, "raw": raw[max(0, i - 10):i + 4]},
+                                  "signature": [engine, ne.args[1].split('(')[0][:60]]})
+    late = sum(1 for i, e in enumerate(raw) if e[0] == 'ev' and any(x[0] == 'st' and x[1] == 'IDLE' for x in raw[:i]))
+    labels = {'timed-stream', 'engine-' + engine}
+    if late:
+        labels.add('event-arrived-while-idle')
+    if any(e[0] == 'ev' and e[2] == 1 and any(x[0] == 'st' and x[1] == 'IDLE' for x in raw[:i]) for i, e in enumerate(raw)):
+        labels.add('internal-event-arrived-while-idle')
+    ctx.count(harness.h64(xml, engine, 'timed'), late > 0 and any(e[0] == 'bm' for e in raw), labels,
+              sample=lambda: {"document": xml[:1200], "engine": engine, "events": [e[1] for e in raw if e[0] == 'ev'][:12]})
+
+
 def check_case(ctx, ch, events, engine):
     xml = ch.to_xml()
     r = run_engine(ctx, xml, engine, events)
@@ -162,11 +201,18 @@ def shard_main(ctx):
             ctx.run_hypothesis([gen.charts(o, 'lua'), gen.event_histories()],
                                lambda ch, evs, engine=engine: check_case(ctx, ch, evs, engine), p["examples"] // 4,
                                lambda ch, evs, engine=engine: dict(case_repr(ch, evs), engine=engine), name=name + engine)
+    # timed stream: delayed sends to the own session (external queue and #_internal) expiring while the session is idle
+    for engine in ("large", "fast"):
+        ctx.run_hypothesis([gen.delayed_charts('lua')], lambda ch, engine=engine: check_timed_case(ctx, ch, engine), p["examples"] // 8 + 1,
+                           lambda ch, engine=engine: dict(case_repr(ch, []), engine=engine, timed=True), name="timed" + engine)
 
 
 def replay(ctx, case):
     ch, events = harness.unpack(case["pickle"])
     try:
+        if case.get("timed"):
+            check_timed_case(ctx, ch, case.get("engine", "large"))
+            return []
         check_case(ctx, ch, events, case.get("engine", "large"))
     except Failure as f:
         return [{"kind": f.kind, "detail": f.detail}]
